@@ -792,7 +792,7 @@ func init() {
 			"histories are sequential (one request is handled at a time); concurrent schedules are C14's subject",
 			"fewer than 65 535 connections per run, so no user id is reissued while a chat still lists its previous holder (DESIGN §15; C13 covers the id space)",
 		}
-		x.Add(&Family{Name: "gofmt", Quick: 6000, Thor: 100000, Run: func(c *Case) {
+		x.Add(&Family{Name: "gofmt", Quick: 6000, Thor: 300000, Run: func(c *Case) {
 			r := c.R
 			name := c12Name(r)
 			if len(name) > 200 {
@@ -827,7 +827,7 @@ func init() {
 			}
 			c.Dist(fmt.Sprintf("gofmt/runes<=13:%v", len(got) == len(ref) && len(name) <= 13))
 		}})
-		x.Add(&Family{Name: "chat-history", Quick: 5000, Thor: 60000, Run: runChatHistory})
-		x.Add(&Family{Name: "chat-e2e", Quick: 40, Thor: 600, Run: runChatE2E})
+		x.Add(&Family{Name: "chat-history", Quick: 5000, Thor: 180000, Run: runChatHistory})
+		x.Add(&Family{Name: "chat-e2e", Quick: 24, Thor: 1800, Run: runChatE2E})
 	}
 }
